@@ -394,6 +394,13 @@ class C16(F.Check):
                                      family="reciprocal:" + fname.rstrip("0123456789"))
                         ks.append(k)
                         self.recip.append(k)
+                        # the result keeps the operand's rep (a float divisor must not widen the quotient to double) and has the model's unit
+                        kt = F.Kernel("c16_rcty_%s_%s" % (fname, tg), "bool", [],
+                                      "%s x{1}; (void)x; using Q = std::decay_t<decltype(%s)>; return std::is_same<typename Q::Rep, %s>::value && "
+                                      "AreUnitsQuantityEquivalent<typename Q::Unit, std::decay_t<decltype(%s)>>::value;" % (r, expr, r, target.cxx),
+                                      key=key, family="identity_result_type", native=False)
+                        ks.append(kt)
+                        self.ident_types.append(kt)
         # ------------------------------------------------------------------ B. compositions (closed)
         self.comp = []      # (kernel, kind, payload)
         cs = [libconst("SPEED_OF_LIGHT"), libconst("PLANCK_CONSTANT"), genconst(m.by(MR(3, 7)))]
